@@ -991,6 +991,20 @@ def h_case(ctx, name, shapes):
     return run_case(ctx, case_, shape, v)
 
 
+_HANDLER_VALIDATES = {}
+
+
+def handler_validates(section):
+    """does the API handler behind this entry point call validate_announce() before it hands the route to the RIB?"""
+    if section not in _HANDLER_VALIDATES:
+        import inspect
+        import exabgp.reactor.api.command.announce as ann
+        name = {'static': 'announce_route', 'ipv4': 'announce_ipv4', 'ipv6': 'announce_ipv6', 'flow': 'announce_flow', 'l2vpn': 'announce_vpls'}.get(section)
+        fn = getattr(ann, name, None) if name else None
+        _HANDLER_VALIDATES[section] = bool(fn) and 'validate_announce(' in inspect.getsource(fn)
+    return _HANDLER_VALIDATES[section]
+
+
 def run_case(ctx, case_, shape, v, expect=None):
     kw = case_.kw
     neg = mk_session(case_.fam, shape)
@@ -1031,7 +1045,9 @@ def run_case(ctx, case_, shape, v, expect=None):
         ctx.check('route-count', False, sig='C18:%s:accepted-text-gives-%d-routes' % (kw, len(routes)), info=info)
         return ['accept', 'routes=%d' % len(routes)]
     for route in routes:
-        error = validate_announce_nlri(route.nlri, route.nexthop)  # reactor.api.command.announce.validate_announce: an error reply
+        # reactor.api.command.announce.validate_announce answers an error reply - in the handlers which call it (read from the current
+        # source: at the time of writing only `announce route` does; the others put the route in the Adj-RIB-Out as it is)
+        error = validate_announce_nlri(route.nlri, route.nexthop) if handler_validates(case_.section) else None
         if error:
             ctx.cover('refused')
             ctx.check('rfc-value-accepted', s_not(case_.allowed(v)), sig='C18:%s:rfc-value-refused' % kw, info=dict(info, error=error, values=v))
@@ -1271,6 +1287,9 @@ SAMPLES['lexical/announce-family'] = [
     AN('path-information', 'path-information 1.2.3.4', 'accept', w_pid_bytes, [1, 2, 3, 4], shapes=[(True, True, True), (False, False, False)]),
     AN('as-path', 'as-path [ 1.1 ]', 'accept', w_aspath_flat, [65537]), AN('bogus', 'bogus 5', 'refuse'), AN('med', 'med', 'refuse'), AN('med', 'med 007', 'accept', w_med, [7]),
     Sample('prefix', 'unicast 10.0.0.1/24 next-hop 1.2.3.4', 'refuse', section='ipv4', api=None, in_file=False),
+    # what `announce route` refuses (a route without next hop) is refused by `announce ipv4 unicast` too - or can be sent
+    Sample('next-hop', 'unicast 10.0.0.0/24 med 5', None, section='ipv4', api=None, in_file=False),
+    Sample('label', 'nlri-mpls 10.0.0.0/24 next-hop 1.2.3.4', None, section='ipv4', api=None, in_file=False, fam=('ipv4 nlri-mpls',), famcode=(1, 4)),
     # the family of the command and the family of the prefix: `announce ipv4 unicast <ipv6 prefix>` cannot be sent as written
     Sample('prefix', 'unicast 2001:db8::/32 next-hop 192.0.2.1', 'refuse', section='ipv4', api=None, in_file=False),
     Sample('prefix', 'unicast 2001:db8::/64 next-hop 192.0.2.1', 'refuse', section='ipv4', api=None, in_file=False),
